@@ -27,10 +27,12 @@ import RxModel.Conc.Exec
 -/
 namespace Rx.Conc
 
-/-- Kind of a delivery: an item, a terminal (`error`/`complete`, same lock
-    skeleton everywhere), or the `is_finished()` query that travels the same way. -/
+/-- Kind of a delivery: an item, a terminal (`term true` = `error`, `term false` =
+    `complete`: the same lock skeleton everywhere but in `delay_threads`, which
+    forwards `error` at once and schedules `complete`), or the `is_finished()`
+    query that travels the same way. -/
 inductive Kind where
-  | next | term | fin
+  | next | term (err : Bool) | fin
   deriving DecidableEq, Repr
 
 mutual
@@ -94,8 +96,11 @@ inductive Shape where
       `self.subscription.retain()` and `.append(handler)` (two separate sections
       of the multi cell, src/subscription.rs:101-113); the delivery happens on a
       pool thread inside `Remote::poll` (src/scheduler.rs:249-264: `let mut info =
-      this.handle_info.rc_deref_mut(); … this.future.poll(cx)`): handle ▸ slot ▸ downstream. -/
-  | task (h : Nat) (d : Shape)
+      this.handle_info.rc_deref_mut(); … this.future.poll(cx)`): handle ▸ slot ▸ downstream.
+      `dl = true` is `delay_threads`, whose `error` does not go through the scheduler
+      (src/ops/delay.rs:104-107 `fn error(self, err) { self.observer.error(err) }`):
+      slot ▸ downstream on the source thread. -/
+  | task (dl : Bool) (h : Nat) (d : Shape)
 inductive Shapes where
   | nil
   | cons (d : Shape) (ds : Shapes)
@@ -112,7 +117,7 @@ def cells : Shape → Nat
   | .subject ds => 2 + cellsL ds
   | .behavior d => 1 + cells d
   | .share d => 1 + cells d
-  | .task h d => 2 + h + cells d
+  | .task _ h d => 2 + h + cells d
 def cellsL : Shapes → Nat
   | .nil => 0
   | .cons d ds => (1 + cells d) + cellsL ds
@@ -124,29 +129,31 @@ mutual
 def deliver : Kind → Nat → Nat → Shape → List Act
   | .fin, _, _, .leaf _ => []
   | .next, n, _, .leaf u => [.cb u n]
-  | .term, n, _, .leaf u => [.cb u n]
+  | .term _, n, _, .leaf u => [.cb u n]
   | kd, n, k, .plain d => deliver kd n k d
   | kd, n, k, .slot d => sect k (deliver kd n (k + 1) d)
   | kd, n, k, .cell d => sect k (deliver kd n (k + 1) d)
-  | .term, n, k, .fin d => deliver .term n (k + 1) d ++ sect k [.atom 0]
+  | .term e, n, k, .fin d => deliver (.term e) n (k + 1) d ++ sect k [.atom 0]
   | .next, n, k, .fin d => deliver .next n (k + 1) d
   | .fin, n, k, .fin d => deliver .fin n (k + 1) d
   | .fin, _, k, .subject _ => sect k []
   | .next, n, k, .subject ds => sect k (sect (k + 1) []) ++ sect k (bcast .next n (k + 2) ds)
-  | .term, n, k, .subject ds => sect k (sect (k + 1) []) ++ sect k (bcast .term n (k + 2) ds)
+  | .term e, n, k, .subject ds => sect k (sect (k + 1) []) ++ sect k (bcast (.term e) n (k + 2) ds)
   | .next, n, k, .behavior d => sect k [.atom 1] ++ deliver .next n (k + 1) d
-  | .term, n, k, .behavior d => deliver .term n (k + 1) d
+  | .term e, n, k, .behavior d => deliver (.term e) n (k + 1) d
   | .fin, n, k, .behavior d => deliver .fin n (k + 1) d
   | kd, n, k, .share d => deliver kd n (k + 1) d
-  | .fin, n, k, .task h d => sect (k + 1 + h) (deliver .fin n (k + 2 + h) d)
-  | .next, _, k, .task _ _ => sect k [] ++ sect k []
-  | .term, _, k, .task _ _ => sect k [] ++ sect k []
+  | .fin, n, k, .task _ h d => sect (k + 1 + h) (deliver .fin n (k + 2 + h) d)
+  | .next, _, k, .task _ _ _ => sect k [] ++ sect k []
+  | .term e, n, k, .task dl h d =>
+      if e && dl then sect (k + 1 + h) (deliver (.term e) n (k + 2 + h) d)
+      else sect k [] ++ sect k []
 /-- The body of a subject's broadcast section: the subscribers in list order,
     subscriber `i` = slot `kᵢ` in front of `dᵢ` (cells from `kᵢ+1`). -/
 def bcast : Kind → Nat → Nat → Shapes → List Act
   | _, _, _, .nil => []
-  | .term, n, k, .cons d ds =>
-      sect k (deliver .term n (k + 1) d) ++ bcast .term n (k + 1 + cells d) ds
+  | .term e, n, k, .cons d ds =>
+      sect k (deliver (.term e) n (k + 1) d) ++ bcast (.term e) n (k + 1 + cells d) ds
   | .next, n, k, .cons d ds =>
       sect k (deliver .next n (k + 1) d) ++ bcast .next n (k + 1 + cells d) ds
   | .fin, n, k, .cons d ds =>
@@ -211,7 +218,7 @@ theorem deliver_ranked : ∀ (d : Shape) (kd : Kind) (n k : Nat) (hs : List Nat)
   | .fin d, kd, n, k, hs, hlt => by
     cases kd <;> simp only [deliver]
     · exact deliver_ranked d .next n (k + 1) hs (by below)
-    · exact RankedK.append (deliver_ranked d .term n (k + 1) hs (by below))
+    · exact RankedK.append (deliver_ranked d (.term _) n (k + 1) hs (by below))
         (rk_sect hlt (rk_atom _ _))
     · exact deliver_ranked d .fin n (k + 1) hs (by below)
   | .subject ds, kd, n, k, hs, hlt => by
@@ -219,20 +226,22 @@ theorem deliver_ranked : ∀ (d : Shape) (kd : Kind) (n k : Nat) (hs : List Nat)
     · exact RankedK.append (rk_sect hlt (rk_sect_nil (by below)))
         (rk_sect hlt (bcast_ranked ds .next n (k + 2) _ (by below)))
     · exact RankedK.append (rk_sect hlt (rk_sect_nil (by below)))
-        (rk_sect hlt (bcast_ranked ds .term n (k + 2) _ (by below)))
+        (rk_sect hlt (bcast_ranked ds (.term _) n (k + 2) _ (by below)))
     · exact rk_sect_nil hlt
   | .behavior d, kd, n, k, hs, hlt => by
     cases kd <;> simp only [deliver]
     · exact RankedK.append (rk_sect hlt (rk_atom _ _))
         (deliver_ranked d .next n (k + 1) hs (by below))
-    · exact deliver_ranked d .term n (k + 1) hs (by below)
+    · exact deliver_ranked d (.term _) n (k + 1) hs (by below)
     · exact deliver_ranked d .fin n (k + 1) hs (by below)
   | .share d, kd, n, k, hs, hlt => by
     simp only [deliver]; exact deliver_ranked d kd n (k + 1) hs (by below)
-  | .task h d, kd, n, k, hs, hlt => by
+  | .task dl h d, kd, n, k, hs, hlt => by
     cases kd <;> simp only [deliver]
     · exact RankedK.append (rk_sect_nil hlt) (rk_sect_nil hlt)
-    · exact RankedK.append (rk_sect_nil hlt) (rk_sect_nil hlt)
+    · split
+      · exact rk_sect (by below) (deliver_ranked d (.term _) n (k + 2 + h) _ (by below))
+      · exact RankedK.append (rk_sect_nil hlt) (rk_sect_nil hlt)
     · exact rk_sect (by below) (deliver_ranked d .fin n (k + 2 + h) _ (by below))
 theorem bcast_ranked : ∀ (ds : Shapes) (kd : Kind) (n k : Nat) (hs : List Nat),
     Below hs k → RankedK hs (bcast kd n k ds) hs
@@ -242,8 +251,8 @@ theorem bcast_ranked : ∀ (ds : Shapes) (kd : Kind) (n k : Nat) (hs : List Nat)
     cases kd <;> simp only [bcast]
     · exact RankedK.append (rk_sect hlt (deliver_ranked d .next n (k + 1) _ (by below)))
         (bcast_ranked ds .next n (k + 1 + cells d) hs (by below))
-    · exact RankedK.append (rk_sect hlt (deliver_ranked d .term n (k + 1) _ (by below)))
-        (bcast_ranked ds .term n (k + 1 + cells d) hs (by below))
+    · exact RankedK.append (rk_sect hlt (deliver_ranked d (.term _) n (k + 1) _ (by below)))
+        (bcast_ranked ds (.term _) n (k + 1 + cells d) hs (by below))
     · exact RankedK.append
         (RankedK.append (rk_sect hlt (deliver_ranked d .fin n (k + 1) _ (by below)))
           (rk_sect_nil hlt))
@@ -280,22 +289,35 @@ inductive BaseOp where
   /-- `Remote::poll` of the `i`-th task on a pool thread delivering `kd n`
       (scheduler.rs:249-264): handle ▸ slot ▸ downstream. -/
   | taskPoll (i : Nat) (kd : Kind) (n : Nat)
+  /-- `Remote::poll` of the `i`-th task while its body is not ready (`delay_threads`:
+      `new_timer(dur).await` has not fired, scheduler.rs:311-316) or after it was
+      cancelled (scheduler.rs:267-270): the handle cell alone. -/
+  | taskPend (i : Nat)
   /-- `TaskHandle::unsubscribe` (scheduler.rs:195-220): the handle cell alone. -/
   | taskCancel (i : Nat)
   /-- `MultiSubscription::unsubscribe` (subscription.rs:80-90): `let vec =
       self.0.rc_deref_mut().take();` (released), then every handle in turn. -/
   | multiUnsub
-  /-- `delay_threads` forwards `error` to the slot immediately (delay.rs:111-113). -/
-  | delayError (n : Nat)
   /-- First `ShareOpThreads::actual_subscribe` (ref_count.rs:60-76): under the share
       cell: subscribe to the subject (chamber), then `connect()`: the source is
-      subscribed with the subject as observer and may emit synchronously (`n`). -/
-  | shareConnect (n : Nat)
+      subscribed with the subject as observer and emits `es` synchronously from
+      inside its `actual_subscribe` (nothing for a hot source, `[next, complete]`
+      for `of(v)`, …). -/
+  | shareConnect (es : List (Kind × Nat))
 
-/-- All handles cancelled in turn. -/
-def cancelAll (k : Nat) : Nat → List Act
+/-- The section of the `i`-th of `h` handle cells of a task stage at `k`, alone. -/
+def handleAlone (k h i : Nat) : List Act :=
+  if i < h then sect (k + 1 + i) [] else []
+
+/-- The first `j` of `h` handles cancelled in turn (`TaskHandle::unsubscribe` each). -/
+def cancelAll (k h : Nat) : Nat → List Act
   | 0 => []
-  | h + 1 => cancelAll k h ++ sect (k + 1 + h) []
+  | j + 1 => cancelAll k h j ++ handleAlone k h j
+
+/-- A sequence of deliveries into one stage. -/
+def deliverAll (k : Nat) (s : Shape) : List (Kind × Nat) → List Act
+  | [] => []
+  | e :: es => deliver e.1 e.2 k s ++ deliverAll k s es
 
 /-- `p_is_closed` of every subscriber. -/
 def closedChecks (n : Nat) : Nat → Shapes → List Act := bcast .fin n
@@ -306,18 +328,18 @@ def opAt : Nat → Shape → BaseOp → List Act
   | k, .behavior (.subject ds), .subscribe new n =>
       sect k (deliver .next n (k + 3 + cellsL ds) new) ++ sect (k + 2) []
   | k, .share (.subject _), .subscribe _ _ => sect k (sect (k + 2) [])
-  | k, .share (.subject ds), .shareConnect n =>
-      sect k (sect (k + 2) [] ++ deliver .next n (k + 1) (.subject ds))
+  | k, .share (.subject ds), .shareConnect es =>
+      sect k (sect (k + 2) [] ++ deliverAll (k + 1) (.subject ds) es)
   | k, .subject _, .unsubAll => sect k [] ++ sect (k + 1) []
   | k, .subject _, .size => sect k (sect (k + 1) [])
   | k, .subject ds, .retain => sect k (closedChecks 0 (k + 2) ds)
   | k, .slot _, .slotUnsub => sect k []
   | k, .fin _, .finUnsub => sect k [.atom 0]
-  | k, .task h d, .taskPoll i kd n =>
+  | k, .task _ h d, .taskPoll i kd n =>
       if i < h then sect (k + 1 + i) (sect (k + 1 + h) (deliver kd n (k + 2 + h) d)) else []
-  | k, .task h _, .taskCancel i => if i < h then sect (k + 1 + i) [] else []
-  | k, .task h _, .multiUnsub => sect k [] ++ cancelAll k h
-  | k, .task h d, .delayError n => sect (k + 1 + h) (deliver .term n (k + 2 + h) d)
+  | k, .task _ h _, .taskPend i => handleAlone k h i
+  | k, .task _ h _, .taskCancel i => handleAlone k h i
+  | k, .task _ h _, .multiUnsub => sect k [] ++ cancelAll k h h
   | _, _, _ => []
 
 /-- An operation addressed to any stage of a pipeline: at the root, at the single
@@ -341,7 +363,7 @@ def innerOf : Nat → Shape → Option (Nat × Shape)
   | k, .fin d => some (k + 1, d)
   | k, .behavior d => some (k + 1, d)
   | k, .share d => some (k + 1, d)
-  | k, .task h d => some (k + 2 + h, d)
+  | k, .task _ h d => some (k + 2 + h, d)
   | _, .leaf _ => none
   | _, .subject _ => none
 
@@ -358,10 +380,22 @@ def footprintAt : Op → Nat → Shape → List Act
 /-- Footprint on a whole pipeline (cells numbered from 0). -/
 def footprint (s : Shape) (o : Op) : List Act := footprintAt o 0 s
 
-theorem cancelAll_ranked (k : Nat) (hs : List Nat) (hlt : Below hs (k + 1)) :
-    ∀ h, RankedK hs (cancelAll k h) hs
+theorem handleAlone_ranked (k h i : Nat) (hs : List Nat) (hlt : Below hs (k + 1)) :
+    RankedK hs (handleAlone k h i) hs := by
+  simp only [handleAlone]
+  split
+  · exact rk_sect_nil (by below)
+  · exact rk_nil _
+
+theorem cancelAll_ranked (k h : Nat) (hs : List Nat) (hlt : Below hs (k + 1)) :
+    ∀ j, RankedK hs (cancelAll k h j) hs
   | 0 => rk_nil _
-  | h + 1 => RankedK.append (cancelAll_ranked k hs hlt h) (rk_sect_nil (by below))
+  | j + 1 => RankedK.append (cancelAll_ranked k h hs hlt j) (handleAlone_ranked k h j hs hlt)
+
+theorem deliverAll_ranked (k : Nat) (s : Shape) (hs : List Nat) (hlt : Below hs k) :
+    ∀ es, RankedK hs (deliverAll k s es) hs
+  | [] => rk_nil _
+  | e :: es => RankedK.append (deliver_ranked s e.1 e.2 k hs hlt) (deliverAll_ranked k s hs hlt es)
 
 theorem opAt_ranked (b : BaseOp) (s : Shape) (k : Nat) (hs : List Nat) (hlt : Below hs k) :
     RankedK hs (opAt k s b) hs := by
@@ -382,14 +416,14 @@ theorem opAt_ranked (b : BaseOp) (s : Shape) (k : Nat) (hs : List Nat) (hlt : Be
       | subject ds => simp only [opAt]; exact rk_sect hlt (rk_sect_nil (by below))
       | _ => exact rk_nil _
     | _ => exact rk_nil _
-  | shareConnect n =>
+  | shareConnect es =>
     cases s with
     | share d =>
       cases d with
       | subject ds =>
         simp only [opAt]
         exact rk_sect hlt (RankedK.append (rk_sect_nil (by below))
-          (deliver_ranked _ .next n (k + 1) _ (by below)))
+          (deliverAll_ranked (k + 1) _ _ (by below) es))
       | _ => exact rk_nil _
     | _ => exact rk_nil _
   | unsubAll =>
@@ -417,31 +451,25 @@ theorem opAt_ranked (b : BaseOp) (s : Shape) (k : Nat) (hs : List Nat) (hlt : Be
     | _ => exact rk_nil _
   | taskPoll i kd n =>
     cases s with
-    | task h d =>
+    | task dl h d =>
       simp only [opAt]
       split
       · exact rk_sect (by below) (rk_sect (by below) (deliver_ranked d kd n _ _ (by below)))
       · exact rk_nil _
     | _ => exact rk_nil _
+  | taskPend i =>
+    cases s with
+    | task dl h d => simp only [opAt]; exact handleAlone_ranked k h i hs (by below)
+    | _ => exact rk_nil _
   | taskCancel i =>
     cases s with
-    | task h d =>
-      simp only [opAt]
-      split
-      · exact rk_sect_nil (by below)
-      · exact rk_nil _
+    | task dl h d => simp only [opAt]; exact handleAlone_ranked k h i hs (by below)
     | _ => exact rk_nil _
   | multiUnsub =>
     cases s with
-    | task h d =>
+    | task dl h d =>
       simp only [opAt]
-      exact RankedK.append (rk_sect_nil hlt) (cancelAll_ranked k hs (by below) h)
-    | _ => exact rk_nil _
-  | delayError n =>
-    cases s with
-    | task h d =>
-      simp only [opAt]
-      exact rk_sect (by below) (deliver_ranked d .term n _ _ (by below))
+      exact RankedK.append (rk_sect_nil hlt) (cancelAll_ranked k h hs (by below) h)
     | _ => exact rk_nil _
 
 theorem atSub_ranked {f : Nat → Shape → List Act} {hs : List Nat}
